@@ -120,7 +120,6 @@ Proof.
 Qed.
 
 (** ** flattenFragments collects exactly the fields GraphQL's CollectFields collects *)
-From Coq Require Import Permutation.
 From Thunder Require Import Federation.Merge Federation.Planner Federation.Executor.
 
 Section NodeInd.
@@ -143,23 +142,6 @@ End NodeInd.
 Definition incl_node (n : node) : bool :=
   match n with NField _ _ _ _ dirs _ _ => should_include dirs | NFrag _ _ _ => true end.
 
-(** what one node contributes to the flattened list: itself if it is a field, plus its fragment content *)
-Definition own (n : node) : list node := if is_field n then [n] else [].
-
-Lemma fields_contribs_perm : forall (l : list node) (cs : list (list node)),
-  List.length cs = List.length l ->
-  Permutation (fields_of l ++ List.concat cs) (List.concat (map (fun p => own (fst p) ++ snd p) (combine l cs))).
-Proof.
-  induction l as [|x t IH]; intros cs Hl; destruct cs as [|c cs']; simpl in *; try discriminate; auto.
-  injection Hl as Hl. unfold own. destruct (is_field x); simpl.
-  - apply perm_skip. rewrite app_assoc.
-    eapply perm_trans; [apply Permutation_app_tail; apply Permutation_app_comm|].
-    rewrite <- app_assoc. apply Permutation_app_head. apply IH; exact Hl.
-  - rewrite app_assoc.
-    eapply perm_trans; [apply Permutation_app_tail; apply Permutation_app_comm|].
-    rewrite <- app_assoc. apply Permutation_app_head. apply IH; exact Hl.
-Qed.
-
 Lemma concat_opt_Forall2 : forall {A} (l : list (option (list A))) r,
   concat_opt l = Some r -> exists cs, Forall2 (fun o c => o = Some c) l cs /\ r = List.concat cs.
 Proof.
@@ -173,74 +155,46 @@ Lemma filter_concat : forall {A} (f : A -> bool) (l : list (list A)),
   filter f (List.concat l) = List.concat (map (filter f) l).
 Proof. intros A f l. induction l as [|x t IH]; simpl; auto. rewrite filter_app, IH. reflexivity. Qed.
 
-Lemma Permutation_filter' : forall {A} (f : A -> bool) (l1 l2 : list A),
-  Permutation l1 l2 -> Permutation (filter f l1) (filter f l2).
+Lemma filter_incl_fields : forall l, filter incl_node (fields_of l) = filter incl_field l.
 Proof.
-  intros A f l1 l2 H. induction H; simpl; auto.
-  - destruct (f x); auto.
-  - destruct (f x), (f y); auto. apply perm_swap.
-  - eapply perm_trans; eauto.
-Qed.
-
-Lemma Permutation_concat_map : forall {A B} (f g : A -> list B) (l : list A),
-  Forall (fun x => Permutation (f x) (g x)) l -> Permutation (List.concat (map f l)) (List.concat (map g l)).
-Proof.
-  intros A B f g l H. induction H as [|x t Hx Ht IH]; simpl; auto. apply Permutation_app; auto.
+  induction l as [|x t IH]; simpl; auto. unfold fields_of in *. simpl.
+  destruct x; simpl; [|exact IH]. destruct (should_include dirs); simpl; rewrite IH; reflexivity.
 Qed.
 
 Section Collect.
   Variable g : gschema.
   Variable obj : string.
 
-  Lemma contrib_collect : forall n c, frag_contrib g obj n = Some c ->
-    Permutation (filter incl_node (own n ++ c)) (collect g obj n).
+  Lemma contribs_collect : forall subs cs,
+    Forall (fun n => forall c, frag_contrib g obj n = Some c -> filter incl_node c = collect_frag g obj n) subs ->
+    Forall2 (fun o c => o = Some c) (map (frag_contrib g obj) subs) cs ->
+    List.concat (map (filter incl_node) cs) = List.concat (map (collect_frag g obj) subs).
   Proof.
-    induction n using node_ind'; intros c Hc; simpl in Hc.
-    - inversion Hc; subst c. unfold own. simpl. destruct (should_include dirs); auto.
-    - unfold own. simpl. destruct (should_include dirs); [|inversion Hc; subst; auto].
-      destruct (applies g obj on) as [[|]|]; [| inversion Hc; subst; auto | discriminate].
+    intros subs cs H. revert cs. induction H as [|x t Hx Ht IH]; intros cs F; simpl in F.
+    - inversion F. reflexivity.
+    - inversion F as [|? c ? cs' Hc F']; subst. simpl. rewrite (Hx c Hc), (IH cs' F'). reflexivity.
+  Qed.
+
+  Lemma contrib_collect : forall n c, frag_contrib g obj n = Some c -> filter incl_node c = collect_frag g obj n.
+  Proof.
+    induction n using node_ind'; intros c Hc; simpl in Hc |- *.
+    - inversion Hc; reflexivity.
+    - destruct (should_include dirs); [|inversion Hc; reflexivity].
+      destruct (applies g obj on) as [[|]|]; [| inversion Hc; reflexivity | discriminate].
       destruct (concat_opt (map (frag_contrib g obj) subs)) as [rest|] eqn:Er; [|discriminate].
-      inversion Hc; subst c. clear Hc.
-      apply concat_opt_Forall2 in Er as [cs [F ->]].
-      assert (Hlen : List.length cs = List.length subs).
-      { clear -F. remember (map (frag_contrib g obj) subs) as m. revert subs Heqm.
-        induction F; intros subs Heqm; destruct subs; simpl in *; try discriminate; auto.
-        inversion Heqm. f_equal. eapply IHF; eauto. }
-      eapply perm_trans.
-      { apply Permutation_filter'. apply fields_contribs_perm. exact Hlen. }
-      rewrite filter_concat, map_map.
-      (* pointwise over subs *)
-      assert (Hpt : Forall (fun p => Permutation (filter incl_node (own (fst p) ++ snd p)) (collect g obj (fst p))) (combine subs cs)).
-      { clear Hlen. revert cs F. induction H as [|x t Hx Ht IHt]; intros cs F; simpl in *.
-        - constructor.
-        - inversion F as [|? c ? cs' Hxc F']; subst. simpl. constructor; [apply Hx; exact Hxc | apply IHt; exact F']. }
-      eapply perm_trans; [apply (Permutation_concat_map _ (fun p => collect g obj (fst p))); exact Hpt|].
-      clear -Hlen. revert cs Hlen. induction subs as [|x t IH]; intros cs Hlen; destruct cs; simpl in *; try discriminate; auto.
-      apply Permutation_app_head. apply IH. lia.
+      inversion Hc; subst c. apply concat_opt_Forall2 in Er as [cs [F ->]].
+      rewrite filter_app, filter_incl_fields, filter_concat, (contribs_collect subs cs H F). reflexivity.
   Qed.
 
   (** flattenFragments, when it succeeds, yields -- after dropping the selections @skip/@include exclude, which
-      planObject does -- exactly the fields CollectFields yields, as a multiset. *)
+      planObject does -- exactly the fields CollectFields yields, in the same order. *)
   Theorem flatten_frags_collects : forall l flat, flatten_frags g obj l = Some flat ->
-    Permutation (filter incl_node flat) (collect_all g obj l).
+    filter incl_node flat = collect_all g obj l.
   Proof.
     intros l flat H. unfold flatten_frags in H.
     destruct (concat_opt (map (frag_contrib g obj) l)) as [rest|] eqn:Er; [|discriminate].
-    inversion H; subst flat. clear H.
-    apply concat_opt_Forall2 in Er as [cs [F ->]].
-    assert (Hlen : List.length cs = List.length l).
-    { clear -F. remember (map (frag_contrib g obj) l) as m. revert l Heqm.
-      induction F; intros l0 Heqm; destruct l0; simpl in *; try discriminate; auto.
-      inversion Heqm. f_equal. eapply IHF; eauto. }
-    eapply perm_trans.
-    { apply Permutation_filter'. apply fields_contribs_perm. exact Hlen. }
-    rewrite filter_concat, map_map. unfold collect_all.
-    assert (Hpt : Forall (fun p => Permutation (filter incl_node (own (fst p) ++ snd p)) (collect g obj (fst p))) (combine l cs)).
-    { clear Hlen. revert cs F. induction l as [|x t IHt]; intros cs F; simpl in *.
-      - constructor.
-      - inversion F as [|? c ? cs' Hxc F']; subst. simpl. constructor; [apply contrib_collect; exact Hxc | apply IHt; exact F']. }
-    eapply perm_trans; [apply (Permutation_concat_map _ (fun p => collect g obj (fst p))); exact Hpt|].
-    clear -Hlen. revert cs Hlen. induction l as [|x t IH]; intros cs Hlen; destruct cs; simpl in *; try discriminate; auto.
-    apply Permutation_app_head. apply IH. lia.
+    inversion H; subst flat. apply concat_opt_Forall2 in Er as [cs [F ->]].
+    unfold collect_all. rewrite filter_app, filter_incl_fields, filter_concat. f_equal.
+    apply contribs_collect; auto. clear. induction l; constructor; auto. intros c Hc. apply contrib_collect; exact Hc.
   Qed.
 End Collect.
